@@ -32,14 +32,11 @@ Proof.
   destruct (slot_store (get_slot k d) i d) as [[s' d']|] eqn:E; [|exact I].
   destruct (slot_store_ok _ _ _ _ _ H S E). unfold ok; cbn [res_ok]. destruct k; simpl; dok.
 Qed.
-Lemma default_of_ok t : item_ok (default_of t).
-Proof. unfold default_of. repeat case_if; simpl; try exact I; vm_compute; congruence. Qed.
-#[export] Hint Resolve default_of_ok : vmok.
 Lemma new_seq_ok b t d : d_ok d -> res_ok (new_seq b t d).
 Proof. unfold new_seq. t. Qed.
 
 Lemma new_empty_ok c mk d : cell_ok c -> (forall l, item_ok (mk l)) -> d_ok d -> res_ok (new_empty c mk d).
-Proof. unfold new_empty. intros Hc Hm H. opens. apply push_ok; [apply Hm|dok]. Qed.
+Proof. unfold new_empty. intros Hc Hm H. opens. apply push_ok; [apply Hm|]. apply alloc_ok; assumption. Qed.
 Lemma op_append_ok d : d_ok d -> res_ok (op_append d).
 Proof. unfold op_append. t. Qed.
 Lemma op_pack_ok b d : d_ok d -> res_ok (op_pack b d).
@@ -48,3 +45,117 @@ Lemma op_unpack_ok d : d_ok d -> res_ok (op_unpack d).
 Proof. unfold op_unpack. t. Qed.
 Lemma op_pickitem_ok d : d_ok d -> res_ok (op_pickitem d).
 Proof. unfold op_pickitem. t. Qed.
+
+Lemma op_setitem_ok d : d_ok d -> res_ok (op_setitem d).
+Proof. unfold op_setitem. t. Qed.
+Lemma op_reverseitems_ok d : d_ok d -> res_ok (op_reverseitems d).
+Proof. unfold op_reverseitems. t. Qed.
+Lemma op_remove_ok d : d_ok d -> res_ok (op_remove d).
+Proof. unfold op_remove. t. Qed.
+Lemma op_clearitems_ok d : d_ok d -> res_ok (op_clearitems d).
+Proof. unfold op_clearitems. t. Qed.
+Lemma op_popitem_ok d : d_ok d -> res_ok (op_popitem d).
+Proof. unfold op_popitem. t. Qed.
+Lemma op_size_ok d : d_ok d -> res_ok (op_size d).
+Proof. unfold op_size. t. Qed.
+Lemma op_keys_ok d : d_ok d -> res_ok (op_keys d).
+Proof. unfold op_keys. t. Qed.
+Lemma op_haskey_ok d : d_ok d -> res_ok (op_haskey d).
+Proof. unfold op_haskey. t. Qed.
+Lemma op_convert_ok t0 d : d_ok d -> res_ok (op_convert t0 d).
+Proof. unfold op_convert. t. Qed.
+Lemma op_memcpy_ok d : d_ok d -> res_ok (op_memcpy d).
+Proof.
+  unfold op_memcpy. t.
+  unfold slice, zlen in *. rewrite !app_length, !firstn_length, !skipn_length. lia.
+Qed.
+
+Lemma packmap_loop_ok n : forall es d es' d',
+  d_ok d -> Forall item_ok (flat_entries es) -> packmap_loop n es d = Some (es', d') ->
+  Forall item_ok (flat_entries es') /\ d_ok d'.
+Proof.
+  induction n as [|n IH]; intros es d es' d' H He; simpl.
+  - intros E; inv E. auto.
+  - destruct (pop_noref d) as [[k d1]|] eqn:E1; [|discriminate].
+    destruct (pop_noref_ok _ _ _ H E1) as [Hk H1].
+    destruct (pop_noref d1) as [[v d2]|] eqn:E2; [|discriminate].
+    destruct (pop_noref_ok _ _ _ H1 E2) as [Hv H2].
+    case_if; [discriminate|].
+    destruct (map_index es k) as [i|].
+    + destruct (nth_error es i) as [[k0 old]|] eqn:E3; [|discriminate].
+      apply IH; [dok|apply map_add_ok; assumption].
+    + apply IH; [assumption|apply map_add_ok; assumption].
+Qed.
+Lemma op_packmap_ok d : d_ok d -> res_ok (op_packmap d).
+Proof.
+  unfold op_packmap. intros. opens.
+  apply packmap_loop_ok in E; [destruct E; dok|assumption|constructor].
+Qed.
+
+Lemma cp_values_ok b : forall src acc d arr d',
+  d_ok d -> Forall item_ok src -> Forall item_ok acc -> cp_values b src acc d = Some (arr, d') ->
+  Forall item_ok arr /\ d_ok d'.
+Proof.
+  induction src as [|it src IH]; intros acc d arr d' H Hs Ha; simpl.
+  - intros E; inv E. split; [apply Forall_rev; assumption|assumption].
+  - inv Hs. destruct (clone_if_struct (d_heap d) it) as [[[h c] s]|] eqn:E; [|discriminate].
+    destruct (clone_if_struct_ok _ _ _ _ _ (d_ok_heap _ H) H2 E).
+    apply IH; [repeat case_if; dok|assumption|constructor; assumption].
+Qed.
+Lemma op_values_ok d : d_ok d -> res_ok (op_values d).
+Proof.
+  unfold op_values. intros. opens;
+  match goal with E : cp_values _ _ _ _ = Some _ |- _ =>
+    apply cp_values_ok in E; [destruct E; dok|repeat case_if; dok|dok|constructor] end.
+Qed.
+
+Lemma jump_cond_ok op d b d' : d_ok d -> jump_cond op d = Some (b, d') -> d_ok d'.
+Proof.
+  intros H. unfold jump_cond.
+  destruct op; try discriminate; intros E;
+    repeat match goal with
+    | E : Some _ = Some _ |- _ => inv E
+    | E : match ?e with Some _ => _ | None => None end = Some _ |- _ =>
+        let X := fresh "X" in destruct e as [[? ?]|] eqn:X; [|discriminate]
+    end; learn; assumption.
+Qed.
+
+Definition param_ok (p : list Z) : Prop := zlen p <= MaxItemSize.
+Definition dres_ok (r : dres) : Prop :=
+  match r with DOk d => d_ok d | DThrow x d => item_ok x /\ d_ok d | DFault => True end.
+
+Theorem exec_data_ok e op p d : d_ok d -> param_ok p -> dres_ok (exec_data e op p d).
+Proof.
+  intros H P. unfold exec_data.
+  enough (R : res_ok (exec_data_opt e op p d)).
+  { destruct (exec_data_opt e op p d) as [[]|]; exact R || exact I. }
+  unfold param_ok in P.
+  destruct op; cbn [exec_data_opt]; try exact I;
+  first
+    [ solve [apply un_int_ok; assumption]
+    | solve [apply bin_int_ok; assumption]
+    | solve [apply bin_cmp_ok; assumption]
+    | solve [apply cmp_null_ok; assumption]
+    | solve [apply ld_ok; assumption]
+    | solve [apply st_ok; assumption]
+    | solve [apply new_seq_ok; assumption]
+    | solve [apply new_empty_ok; [constructor| intros; exact I | assumption]]
+    | solve [apply op_append_ok; assumption]
+    | solve [apply op_pack_ok; assumption]
+    | solve [apply op_packmap_ok; assumption]
+    | solve [apply op_unpack_ok; assumption]
+    | solve [apply op_pickitem_ok; assumption]
+    | solve [apply op_setitem_ok; assumption]
+    | solve [apply op_reverseitems_ok; assumption]
+    | solve [apply op_remove_ok; assumption]
+    | solve [apply op_clearitems_ok; assumption]
+    | solve [apply op_popitem_ok; assumption]
+    | solve [apply op_size_ok; assumption]
+    | solve [apply op_keys_ok; assumption]
+    | solve [apply op_values_ok; assumption]
+    | solve [apply op_haskey_ok; assumption]
+    | solve [apply op_memcpy_ok; assumption]
+    | solve [opens; first [apply ld_ok | apply st_ok | apply new_seq_ok | apply op_convert_ok]; assumption]
+    | solve [t]
+    | idtac ].
+Qed.
